@@ -487,3 +487,57 @@ def carry_source(ctx):
     else:
         ctx.ok(key, f.loc(feeding[0][0]), '%d position load(s) feed the carry copy; no store to decoder.bufs precedes them after decode() (%d store(s), all behind the copy)'
                % (len(feeding), len(stores)))
+
+
+# --------------------------------------------------------------------------- MASK-AGEING-TWIN
+
+@rule('MASK-AGEING-TWIN', ['C11'], floor=1)
+def mask_ageing_twin(ctx):
+    """The x86 BCJ filter remembers recent E8/E9 opcodes in `prev_mask` and ages that memory by the distance d to the
+    previous opcode in two places: inside the scan loop (at the next opcode) and once more at the end of the call
+    (so that the state carried to the next call is the same as if the buffer had not ended there). Both places
+    compute `prev_mask << (d - 1)` and both must drop the memory under the same condition on d - they are the same
+    step, cut in two by the buffer boundary. If the conditions differ, the filter's output depends on where the
+    caller's buffers end and no longer matches the reference."""
+    F = ctx.facts
+    fs = [f for f in F.fns if f.key == 'BCJFilter::x86_code']
+    if not fs:
+        ctx.anchor_missing('BCJFilter::x86_code')
+        return
+    f = fs[0]
+    prov = Prov(f)
+    key = '%s:both-ageing-sites-use-one-condition' % f.key
+    sites = []
+    for b in sorted(f.reachable):
+        for si, s in enumerate(f.blocks[b]['stmts']):
+            if s['k'] != 'assign' or s['rv']['r'] != 'bin' or not s['rv']['op'].startswith('Shl'):
+                continue
+            e = prov.rvalue(s['rv'], 0, '%d:%d' % (b, si))
+            amt = e[3]
+            while amt[0] == 'cast':
+                amt = amt[-1]
+            if amt[0] == 'field' and isinstance(amt[1], tuple) and amt[1][0] == 'bin' and amt[1][1].startswith('Sub') and str(amt[2]) == '0':
+                amt = ('bin', 'Sub', amt[1][2], amt[1][3])
+            if not (amt[0] == 'bin' and amt[1] == 'Sub' and amt[3][0] == 'const' and amt[3][2] == 1):
+                continue
+            if 'prev_mask' not in expr_str(e[2]):
+                continue
+            d = expr_str(amt[2])
+            conds = []
+            for sb, pol, cond in guards_of(f, b, prov):
+                cs = expr_str(cond)
+                if d in cs:
+                    nc = norm_cmp(cond, pol) if cond[0] in ('bin', 'un') else None
+                    conds.append('%s %s %s' % (expr_str(nc[1]), nc[0], expr_str(nc[2])) if nc else ('%s is %s' % (cs, pol)))
+            sites.append((b, d, tuple(sorted(conds))))
+    if len(sites) < 2:
+        ctx.violation(key, f.loc(0), 'expected two sites that age prev_mask by `prev_mask << (d - 1)` (loop and end of call), found %d: '
+                      'anchor lost (fail closed)' % len(sites))
+        return
+    kinds = {(d, c) for _, d, c in sites}
+    if len(kinds) == 1 and sites[0][2]:
+        ctx.ok(key, f.loc(sites[0][0]), '%d ageing sites, all under %s' % (len(sites), ' and '.join(sites[0][2])[:150]))
+    else:
+        ctx.violation(key, f.loc(sites[-1][0]), 'the sites that age prev_mask disagree on when the opcode memory is dropped: %s - the state carried '
+                      'across a buffer boundary differs from the state inside one buffer, output depends on the caller\'s chunking'
+                      % ' vs '.join('[%s | %s]' % (d, ' and '.join(c)[:90]) for _, d, c in sites))
